@@ -568,12 +568,13 @@ impl<T> DataReaderEntity<T> {
 
         match self.qos.destination_order.kind {
             DestinationOrderQosPolicyKind::BySourceTimestamp => {
-                // Insert the element at the place where the first source timestamp is bigger than the currently received one
+                // Insert the element at the place where the first source timestamp is bigger than the currently received one.
+                // A sample that is not older than any stored one goes to the end
                 let insert_position = self
                     .sample_list
                     .iter()
                     .position(|x| x.source_timestamp > sample.source_timestamp)
-                    .unwrap_or(0);
+                    .unwrap_or(self.sample_list.len());
                 self.sample_list.insert(insert_position, sample);
             }
             DestinationOrderQosPolicyKind::ByReceptionTimestamp => self.sample_list.push(sample),
